@@ -9,6 +9,16 @@ import GlmVerif.Props.C10.T_divmv
 import GlmVerif.Props.C10.T_divvm
 import GlmVerif.Props.C10.T_adjugate
 import GlmVerif.Props.C10.T_affinv
+import GlmVerif.Props.C10.T_detA
+import GlmVerif.Props.C10.T_inv_leftA
+import GlmVerif.Props.C10.T_inv_rightA
+import GlmVerif.Props.C10.T_invtrA
+import GlmVerif.Props.C10.T_divmmA
+import GlmVerif.Props.C10.T_asgdiv_mA
+import GlmVerif.Props.C10.T_divmvA
+import GlmVerif.Props.C10.T_divvmA
+import GlmVerif.Props.C10.T_adjugateA
+import GlmVerif.Props.C10.T_affinvA
 /-! every family table of C10 holds for the model generated from the current /repo -/
 namespace Glm.Props.C10
 open Glm Glm.Spec.C10 Glm.Gen.C10
@@ -23,5 +33,15 @@ theorem all_ok : ∀ f ∈ families, f.ok lookup = true := by
     (Family.ok_congr f_divmv (fun ks => by rw [show f_divmv.unit = "divmv" from rfl, lookup_divmv])).trans divmv_ok,
     (Family.ok_congr f_divvm (fun ks => by rw [show f_divvm.unit = "divvm" from rfl, lookup_divvm])).trans divvm_ok,
     (Family.ok_congr f_adjugate (fun ks => by rw [show f_adjugate.unit = "adjugate" from rfl, lookup_adjugate])).trans adjugate_ok,
-    (Family.ok_congr f_affinv (fun ks => by rw [show f_affinv.unit = "affinv" from rfl, lookup_affinv])).trans affinv_ok⟩
+    (Family.ok_congr f_affinv (fun ks => by rw [show f_affinv.unit = "affinv" from rfl, lookup_affinv])).trans affinv_ok,
+    (Family.ok_congr f_detA (fun ks => by rw [show f_detA.unit = "detA" from rfl, lookup_detA])).trans detA_ok,
+    (Family.ok_congr f_inv_leftA (fun ks => by rw [show f_inv_leftA.unit = "invA" from rfl, lookup_invA])).trans inv_leftA_ok,
+    (Family.ok_congr f_inv_rightA (fun ks => by rw [show f_inv_rightA.unit = "invA" from rfl, lookup_invA])).trans inv_rightA_ok,
+    (Family.ok_congr f_invtrA (fun ks => by rw [show f_invtrA.unit = "invtrA" from rfl, lookup_invtrA])).trans invtrA_ok,
+    (Family.ok_congr f_divmmA (fun ks => by rw [show f_divmmA.unit = "divmmA" from rfl, lookup_divmmA])).trans divmmA_ok,
+    (Family.ok_congr f_asgdiv_mA (fun ks => by rw [show f_asgdiv_mA.unit = "asgdiv_mA" from rfl, lookup_asgdiv_mA])).trans asgdiv_mA_ok,
+    (Family.ok_congr f_divmvA (fun ks => by rw [show f_divmvA.unit = "divmvA" from rfl, lookup_divmvA])).trans divmvA_ok,
+    (Family.ok_congr f_divvmA (fun ks => by rw [show f_divvmA.unit = "divvmA" from rfl, lookup_divvmA])).trans divvmA_ok,
+    (Family.ok_congr f_adjugateA (fun ks => by rw [show f_adjugateA.unit = "adjugateA" from rfl, lookup_adjugateA])).trans adjugateA_ok,
+    (Family.ok_congr f_affinvA (fun ks => by rw [show f_affinvA.unit = "affinvA" from rfl, lookup_affinvA])).trans affinvA_ok⟩
 end Glm.Props.C10
